@@ -1180,10 +1180,13 @@ where
         if safe.active_blob.is_none() {
             Err(Error::active_blob_doesnt_exist().into())
         } else {
+            // Sync while the blob is still in its place: if that fails, the blob stays active and nothing is lost
+            if let Some(ablob) = safe.active_blob.as_ref() {
+                ablob.read().await.fsyncdata().await?;
+            }
             // always true
             if let Some(ablob) = safe.active_blob.take() {
                 let ablob = (*ablob).into_inner();
-                ablob.fsyncdata().await?;
                 safe.blobs.write().await.push(ablob).await;
             }
             Ok(())
